@@ -470,7 +470,8 @@ Definition exec_elem (s : st) (name : qname) (nsattr sns sdef : option uri) (pde
                     | AXml => negb (N.eqb ens uXML)
                     | _ => false
                     end in
-          let s1 := start_elem (add_hz_if h2 HUnsupported (add_hz_if h1 HElemEmptyNs s)) name req in
+          let h3 := N.eqb ens 0 in                     (* a prefix bound to "" : not a stylesheet *)
+          let s1 := start_elem (add_hz_if (h2 || h3) HUnsupported (add_hz_if h1 HElemEmptyNs s)) name req in
           match ns_for_prefix (stk s1) (Some p) with
           | Some w => if N.eqb w ens then s1 else declare_prefix s1 p ens
           | None => declare_prefix s1 p ens
@@ -520,30 +521,64 @@ Definition output_ns (s : st) (d : pfx * uri) : st :=
   | None => add_result_attr s name u no_req
   end.
 
+(* sanity of the stylesheet-side arguments of a literal result element (what a stylesheet that
+   parses can give): no binding of xml/xmlns, no xmlns:p="", the element's and the literal
+   attributes' prefixes are declared and not in the XSLT/XML namespace (such names are XSLT
+   elements/attributes, not literal ones), no literal xmlns attribute, no two literal attributes
+   with one expanded name.  Anything else is flagged HUnsupported. *)
+Definition special_uri (u : uri) : bool := N.eqb u uXSLT || N.eqb u uXML.
+
+Definition inscope_entry_ok (d : pfx * uri) : bool :=
+  match fst d with
+  | None => true
+  | Some AXml | Some AXmlns => false
+  | Some _ => negb (N.eqb (snd d) 0)
+  end.
+
+Definition name_prefix_ok (inscope : list (pfx * uri)) (p : pfx) (is_elem : bool) : bool :=
+  match p with
+  | None => if is_elem
+            then match ctx_lookup None inscope with Some d => negb (special_uri d) | None => true end
+            else true
+  | Some AXml => true
+  | Some AXmlns => false
+  | Some _ => match ctx_lookup p inscope with Some u => negb (special_uri u) | None => false end
+  end.
+
+Definition lre_wf (name : qname) (inscope : list (pfx * uri)) (attrs : list (qname * N)) : bool :=
+  forallb inscope_entry_ok inscope
+  && name_prefix_ok inscope (fst name) true
+  && forallb (fun a => match decl_prefix (fst a) with
+                       | Some _ => false
+                       | None => name_prefix_ok inscope (fst (fst a)) false
+                       end) attrs
+  && nodup_by ename_eqb (map (fun a => req_lre_attr (fst a) inscope) attrs).
+
+(* the default-namespace check of ElemLiteralResult::startElement for an unprefixed name *)
+Definition lre_fixup (s : st) (name : qname) (inscope : list (pfx * uri)) : st :=
+  match fst name with
+  | Some _ => s
+  | None =>
+      match ns_for_prefix (stk s) None with
+      | Some c =>
+          match ctx_lookup None (dedupe inscope []) with
+          | None => declare_default s 0
+          | Some d => if N.eqb c d then s else declare_default s d
+          end
+      | None => s
+      end
+  end.
+
+(* evaluateAVTs *)
+Definition lre_attrs (s : st) (inscope : list (pfx * uri)) (attrs : list (qname * N)) : st :=
+  fold_left (fun s a => add_result_attr s (fst a) (snd a) (req_lre_attr (fst a) inscope)) attrs s.
+
 Definition exec_lre (s : st) (name : qname) (inscope : list (pfx * uri)) (excl : list uri)
            (attrs : list (qname * N)) : st :=
   let req := req_lre_elem name inscope in
-  (* two literal attributes with one expanded name: the stylesheet is not namespace-well-formed *)
-  let hd := negb (nodup_by ename_eqb
-                    (map (fun a => req_lre_attr (fst a) inscope)
-                         (filter (fun a => match decl_prefix (fst a) with Some _ => false | None => true end) attrs))) in
-  let s1 := start_elem (add_hz_if hd HUnsupported s) name req in
+  let s1 := start_elem (add_hz_if (negb (lre_wf name inscope attrs)) HUnsupported s) name req in
   let s2 := fold_left output_ns (lre_decls name inscope excl attrs) s1 in
-  let s3 :=
-    match fst name with
-    | Some _ => s2
-    | None =>
-        match ns_for_prefix (stk s2) None with
-        | Some c =>
-            match ctx_lookup None (dedupe inscope []) with
-            | None => declare_default s2 0
-            | Some d => if N.eqb c d then s2 else declare_default s2 d
-            end
-        | None => s2
-        end
-    end in
-  (* evaluateAVTs *)
-  fold_left (fun s a => add_result_attr s (fst a) (snd a) (req_lre_attr (fst a) inscope)) attrs s3.
+  lre_attrs (lre_fixup s2 name inscope) inscope attrs.
 
 (* ---------------------------------------------------------------------------------------- *)
 (* XSLTEngineImpl::copyNamespaceAttributes (xsl:copy / xsl:copy-of of a source element): the
